@@ -59,7 +59,11 @@ package symbols
 
 // Conformance between two user-defined name types is sound for membership: when it is affirmed by the prefix rule
 // (the sites that answer by equality, /any, /bot or /name are excluded here), every member of left is a member of right.
+// Struct types are covariant in their fields: for a field of the right struct (required or optional) the
+// recursive question is always "does the LEFT field type conform to the RIGHT field type".
 //@ func TypeConforms(ctx, left, right)
+//@   guard call TypeConforms in loop 3: arg2 == rightTpe
+//@   guard call TypeConforms in loop 5: arg2 == rightTpe#2
 //@   opt perreturn
 //@   opt nosafety
 //@   requires basesDistinct()
